@@ -1,13 +1,14 @@
 import Cvss.Model.Obj
 /-!
-# Model: the four `ParseVector` functions (hand-written)
+# Model: the four `ParseVector` functions (readable form)
 
-These follow the control flow of `/repo/{20,30,31,40}/cvss*.go:ParseVector` (and `split`,
-`splitCouple`, `kvm.Set`, `strings.Cut`, `strings.HasPrefix`). They are **not** regenerated: the tie to
-the source is (a) the source hashes `GenVxx.srchash_*` emitted by the extractor, compared below with the
-values recorded when this model was written (`*_src_tie`), and (b) the correspondence differential run on
-every check. The tables they consult (`tbl_order`, `const_header`) and the `Set` they store through **are**
-the regenerated ones.
+These follow the control flow of `/repo/{20,30,31,40}/cvss*.go:ParseVector` (and `split`, `splitCouple`, `kvm.Set`,
+`strings.Cut`, `strings.HasPrefix`) and are the form on which the parser-level theorems (C01, C02, C06, C08, C13, C18) are
+stated. They are hand-written, but **tied to the source by proof**: the translator regenerates the real functions into
+`Gen/P20.lean … P40.lean` on every run and `Props/ParseTie.lean` proves, for every byte string (and every stale pool buffer
+for v2.0), that the regenerated parser returns the same object / the same error as the model below and never panics.
+The tables they consult (`tbl_order`, `const_header`) and the `Set` they store through are the regenerated ones.
+(`Model/SrcTie.lean`, an earlier tie by source hashes, is kept but no longer used by any check.)
 
 Error codes (shared with the translator and the harness):
 1 ErrInvalidCVSSHeader, 2 ErrTooShortVector, 3 ErrInvalidMetricOrder, 4 ErrInvalidMetricValue,
